@@ -4,7 +4,38 @@ from vunit import Raw, Prelude, Fn, Decl
 from common import *
 
 NAME = 'c03_digests'
+STR_BYTES = '''
+/// A-UTF8: `str::as_bytes` / `String::as_bytes`: the UTF-8 bytes, an injective function of the characters
+pub uninterp spec fn utf8(s: Seq<char>) -> Seq<u8>;
+pub broadcast axiom fn axiom_utf8_injective(a: Seq<char>, b: Seq<char>)
+    ensures #![trigger utf8(a), utf8(b)] utf8(a) == utf8(b) ==> a == b;
+pub trait StrLike { spec fn chars(&self) -> Seq<char>; }
+impl StrLike for &str { open spec fn chars(&self) -> Seq<char> { self@ } }
+impl StrLike for String { open spec fn chars(&self) -> Seq<char> { self@ } }
+#[verifier::external_body]
+pub fn str_bytes<'a, S: StrLike>(s: &'a S) -> (r: &'a [u8]) ensures r@ == utf8(s.chars()) { unimplemented!() }
+/// `.len()`: number of BYTES (of a byte string, or of the UTF-8 encoding of a string)
+pub trait VLen { spec fn nbytes(&self) -> nat; }
+impl VLen for &[u8] { open spec fn nbytes(&self) -> nat { self@.len() } }
+impl VLen for Vec<u8> { open spec fn nbytes(&self) -> nat { self@.len() } }
+impl VLen for DigestOut { open spec fn nbytes(&self) -> nat { self.bytes@.len() } }
+impl VLen for &str { open spec fn nbytes(&self) -> nat { utf8(self@).len() } }
+impl VLen for String { open spec fn nbytes(&self) -> nat { utf8(self@).len() } }
+#[verifier::external_body]
+pub fn vlen<A: VLen>(a: &A) -> (r: usize) ensures r == a.nbytes() { unimplemented!() }
+'''
 R11 = 'R11-content-comparison'
+
+_OPND = r'([A-Za-z_]\w*(?:\[\w+\])?)'
+_ZOPND = r'((?:str_bytes\(&)?[A-Za-z_]\w*(?:\[\w+\])?\)?)'
+ZIP_RULES = [
+    (re.compile(_OPND + r'\.as_bytes\(\)'), r'str_bytes(&\1)', None, 'A-UTF8: the bytes of a string (injective)'),
+    (re.compile(_ZOPND + r'\s*\.iter\(\)\s*\.zip\(\s*&?' + _ZOPND + r'(?:\s*\.iter\(\))?\s*\)\s*\.all\(\s*\|\(\s*(\w+)\s*,\s*(\w+)\s*\)\|\s*\3\s*==\s*\4\s*\)'),
+     r'zip_all_eq(&\1, &\2)', None, 'R44-zip().all(==): equality of the common prefix'),
+    (re.compile(_ZOPND + r'\s*\.iter\(\)\s*\.zip\(\s*&?' + _ZOPND + r'(?:\s*\.iter\(\))?\s*\)\s*\.fold\(\s*0(?:u8)?\s*,\s*\|\s*(\w+)\s*,\s*\(\s*(\w+)\s*,\s*(\w+)\s*\)\|\s*\3\s*\|\s*\(\s*\4\s*\^\s*\5\s*\)\s*\)\s*==\s*0'),
+     r'zip_all_eq(&\1, &\2)', None, 'R44-zip().fold(0, acc | (x ^ y)) == 0: equality of the common prefix'),
+    (re.compile(_OPND + r'\.len\(\) (==|!=) ' + _OPND + r'\.len\(\)'), r'vlen(&\1) \2 vlen(&\3)', None, 'R11-length of a byte string / string'),
+]
 
 PARTS = HEAD + consts('LEAD_SIZE', 'INDEX_HEADER_SIZE', 'INDEX_ENTRY_SIZE', 'HEADER_MAGIC') + io_head() + header_types() + [
     Prelude('hdrspec.rs'),
@@ -16,9 +47,9 @@ PARTS = HEAD + consts('LEAD_SIZE', 'INDEX_HEADER_SIZE', 'INDEX_ENTRY_SIZE', 'HEA
     Decl(PKG, 'struct', 'PackageMetadata'),
     Decl(PKG, 'struct', 'Package'),
     header_write_contract(),
-    Raw(DIGEST_SPEC + 'impl Package {\n'),
+    Raw(DIGEST_SPEC + STR_BYTES + 'impl Package {\n'),
     Fn(PKG, 'verify_digests', impl='impl Package',
-       subs=[ret(),
+       subs=[ret()] + ZIP_RULES + [
              (re.compile(r'\b([A-Za-z_]\w*) != ([A-Za-z_]\w*(?:\[\w+\])?)'), r'!veq(&\1, &\2)', None, R11),
              (re.compile(r'\b([A-Za-z_]\w*) == ([A-Za-z_]\w*(?:\[\w+\])?)'), r'veq(&\1, &\2)', None, R11),
              (re.compile(r'Error::InvalidTagValueEnumVariant\s*\{[^}]*\}'), 'Error::Other', None, 'R4-error-message'),
@@ -28,7 +59,7 @@ PARTS = HEAD + consts('LEAD_SIZE', 'INDEX_HEADER_SIZE', 'INDEX_ENTRY_SIZE', 'HEA
         r is Ok <==> digests_ok(*self),
         r is Err ==> (r->Err_0 is DigestMismatchError || (payload_recorded(*self) && payload_algo(*self) != 8)),
         (payload_recorded(*self) && payload_algo(*self) != 8) ==> r is Err,''',
-       prologue='proof { broadcast use axiom_hex_injective; }',
+       prologue='proof { broadcast use axiom_hex_injective, axiom_utf8_injective; }',
        ),
     Raw('''}
 // vacuity canaries: must FAIL
